@@ -133,6 +133,17 @@ def run_jobs(ctx, jobs, par=3):
         raise errs[0]
 
 
+def conc_mixes(maxn=3):
+    import itertools
+    kinds = ["prel", "thrl", "precbt", "precbf", "thrcbt", "thrcbf"]
+    out = []
+    for n in range(1, maxn + 1):
+        for combo in itertools.combinations_with_replacement(kinds, n):
+            if any(k.startswith("thr") for k in combo):
+                out.append(list(combo))
+    return out
+
+
 def run(ctx):
     rp = vlib.compile_harness(os.path.join(vlib.VERIF, "harness/signal_replay.cpp"), "signal_replay",
                               sanitize=not ctx.quick)
@@ -145,11 +156,58 @@ def run(ctx):
 
     def conc(tag, kinds, **kw):
         jobs.append(lambda: run_conc(ctx, rpc, tag, kinds, **kw))
+    LGO, LGT, LFT = ["loop", "gated", "cbonce"], ["loop", "gated", "cbt"], ["loop", "cbf", "cbt"]
     if ctx.quick:
         ctx.exhaustive = False
-        seq("n_lgo", ["loop", "gated", "cbonce"], max_emit=2, max_paths=400, extra_random=100)
-        seq("c_lgt", ["loop", "gated", "cbt"], coro=True, max_emit=2, max_paths=400, extra_random=100)
-        conc("x_plt", ["prel", "thrl", "thrcbt"], nemit=2)
+        cap = dict(max_paths=400, extra_random=100)
+        # every history (Strict = FALSE: also the undisciplined ones) replayed on the real signal<int>/<void>
+        seq("n_lgo", LGO, max_emit=2, **cap)
+        seq("c_lgt", LGT, coro=True, max_emit=2, **cap)
+        seq("n_lft", LFT, max_emit=3, **cap)
+        seq("vc_lgo", LGO, void=True, coro=True, max_emit=3, **cap)
+        # the promised properties under the discipline (Strict = TRUE), deeper bound, specification only
+        seq("s_c_lgo", LGO, coro=True, strict=True, max_emit=3, replay=False)
+        seq("s_n_lgt", LGT, strict=True, max_emit=3, replay=False)
+        # subscription racing with the collector: all schedules at atomic-operation grain
+        conc("x_plt", ["prel", "thrl", "thrcbt"], nemit=2, max_paths=400)
+        conc("x_all", ["precbt", "thrl", "thrl"], nemit=2, form="lvalue", max_paths=400)
+        conc("x_pfl", ["prel", "thrcbf", "thrl"], nemit=2, max_paths=400)
+        extra = conc_mixes(3)
+        ctx.rng.shuffle(extra)
+        for i, m in enumerate(extra[:3]):
+            conc("x_r%d" % i, m, nemit=2, form="lvalue" if i % 2 else "rvalue", max_paths=300)
     else:
-        seq("n_lgo", ["loop", "gated", "cbonce"], max_emit=3)
+        for coro in (False, True):
+            c = "c" if coro else "n"
+            seq(c + "_lgo", LGO, coro=coro, max_emit=3)
+            seq(c + "_lft", LFT, coro=coro, max_emit=3)
+            seq(c + "_go", ["gated", "cbonce"], coro=coro, max_emit=3)
+            seq(c + "_ggt", ["gated", "gated", "cbt"], coro=coro, max_emit=2)
+            seq("v" + c + "_lgo", LGO, void=True, coro=coro, max_emit=3)
+            seq("v" + c + "_lft", LFT, void=True, coro=coro, max_emit=3)
+            seq("s_" + c + "_lgo4", LGO, coro=coro, strict=True, max_emit=4, replay=False)
+            seq("s_" + c + "_llg", ["loop", "loop", "gated"], coro=coro, strict=True, max_emit=3, replay=False)
+            seq("s_" + c + "_ggt", ["gated", "gated", "cbt"], coro=coro, strict=True, max_emit=3, replay=False)
+            seq("s_v" + c + "_lgo", LGO, void=True, coro=coro, strict=True, max_emit=4, replay=False)
+        seq("n_llg", ["loop", "loop", "gated"], max_emit=3)
+        seq("n_lg4", ["loop", "gated"], max_emit=4)
+        seq("c_lg", ["loop", "gated"], coro=True, max_emit=3)
+        for i, m in enumerate(conc_mixes(3)):
+            conc("x%d" % i, m, nemit=2, form="lvalue" if i % 2 else "rvalue")
+        conc("x4a", ["prel", "precbt", "thrl", "thrcbt"], nemit=3, form="lvalue")
+        conc("x4b", ["prel", "thrl", "thrcbt", "thrcbf"], nemit=2)
+        conc("x4c", ["thrl", "thrl", "thrl", "precbf"], nemit=2)
+        conc("x3e", ["prel", "thrl", "thrl"], nemit=3)
     run_jobs(ctx, jobs)
+    ctx.assume("the collector is called by one thread at a time (documented as not MT safe, signal.h:91,243); "
+               "listeners do not call the collector or drop handles themselves")
+    ctx.assume("delivery of every value (AllWaitingGetIt, ReAwaitMissesNone, NoDanglingRead) is claimed for the documented "
+               "discipline (Strict): before the next collector call / the destruction of the last handle / the end of a "
+               "variable passed by lvalue reference, the suspend point of the previous call has been released and the "
+               "released listeners have run -- always so for a suspend point discarded on a normal thread or co_awaited; "
+               "inside a coroutine a discarded suspend point only queues the listeners (suspend_point.h:27-30), and a "
+               "listener that is resumed later reads the value current at that time (modelled and replayed with Strict = FALSE)")
+    ctx.assume("reference counting of the shared state (std::shared_ptr control block) is not a scheduling point: handle "
+               "copies/destruction are interleaved with subscriptions at the grain of the operations on state::_chain only")
+    ctx.assume("compare_exchange_weak does not fail spuriously (x86-64 lock cmpxchg); weak CAS is executed as strong under the controlled scheduler")
+    ctx.assume("value type int (and void); hook_up() is not covered")
